@@ -46,6 +46,15 @@ FAMILY = [
     "SELECT a AS int1 FROM int1.t1",
     "SELECT q.a FROM int1.t1 AS q JOIN int1.int1 AS int1 ON q.id = int1.id",
     "SELECT t1.a FROM int1.t1 WHERE t1.a IN (SELECT int1.x FROM int1.int1 AS int1)",
+    "SELECT int1.t1.* FROM int1.t1",
+    "SELECT t1.* FROM int1.t1 WHERE t1.a > 0",
+    "SELECT int1.t1.*, t2.c FROM int1.t1 JOIN int1.t2 ON t1.id = t2.id",
+    "SELECT q.*, int1.t2.* FROM int1.t1 AS q JOIN int1.t2 ON q.id = int1.t2.id",
+    "SELECT s.* FROM (SELECT int1.t1.* FROM int1.t1) AS s",
+    "SELECT count(*) AS n, count(int1.t1.a) AS m FROM int1.t1",
+    "SELECT a FROM int1.t1 WHERE a > 0 LIMIT 0",
+    "SELECT a FROM int1.t1 ORDER BY id LIMIT 2 OFFSET 0",
+    "SELECT a FROM int1.t1 WHERE b = 0 OR a = 0",
     "SELECT INT1.t1.a FROM INT1.t1",
     "SELECT a FROM Int1.t1 WHERE Int1.t1.b = 1",
 ]
@@ -86,7 +95,8 @@ def check_member(sql, R, D, timeout_ms=120000):
     na, nb = [c.name for c in a.cols], [c.name for c in b.cols]
     problems = []
     if na != nb:
-        problems.append('output columns %s, the original query yields %s' % (nb, na))
+        # a structural difference: decided by reading the two column lists, no database needed
+        return dict(info, status='counterexample', kind='names', problems=['output columns %s, the original query yields %s' % (nb, na)])
     s = z3.Solver()
     s.set('timeout', timeout_ms)
     s.add(db.constraints + ev1.assumptions + ev2.assumptions)
@@ -125,8 +135,14 @@ def replay_member(sql, witness):
         want = con.execute(sql).fetchall()
     except Exception as e:  # noqa
         return False, {'note': 'sqlite cannot run the original: %s' % e}
+    # the pushed query runs INSIDE the integration: a database that knows its tables but not the name "int1"
+    con2 = sqlite3.connect(':memory:')
+    for t, cols in SCHEMA.items():
+        con2.execute('CREATE TABLE %s (%s)' % (t, ', '.join('%s INTEGER' % c for c in cols)))
+        for r in witness['db'].get(t, []):
+            con2.execute('INSERT INTO %s VALUES (%s)' % (t, ', '.join('?' * len(cols))), r)
     try:
-        got = con.execute(pushed).fetchall()
+        got = con2.execute(pushed).fetchall()
     except Exception as e:  # noqa
         return True, {'original_rows': want, 'pushed_error': str(e), 'pushed': pushed}
     return sorted(map(repr, got)) != sorted(map(repr, want)), {'original_rows': want, 'pushed_rows': got, 'pushed': pushed, 'db': witness['db']}
